@@ -17,16 +17,12 @@ import (
 	"context"
 	"errors"
 	"fmt"
-	"go/ast"
-	"go/parser"
-	"go/token"
 	"io"
 	"math"
 	"math/rand"
 	"net"
 	"net/http"
 	"net/http/httptest"
-	"path/filepath"
 	"regexp"
 	"runtime"
 	"sort"
@@ -319,62 +315,35 @@ func atoMicro(ato string) (int64, bool) {
 	return v, false
 }
 
-// guardDetected: does livesimHandlerFunc of the tree this harness was built from refuse chunked
-// requests whose availabilityTimeOffset leaves no chunk duration (repair 6ca1ef6)? Read from
-// handler_livesim.go: an if statement whose condition mentions AvailabilityTimeCompleteFlag and
-// SegmentDurMS and whose body answers http.StatusBadRequest. The model is evaluated with this flag;
-// a guard of another shape shows up as a correspondence mismatch.
+// guardDetected / guardRounded: which request guard chunked mode has in the tree under test, found by
+// asking the real handler (a rename or an extracted helper in the source cannot change the answer):
+// a chunked request whose offset is beyond the segment duration, and a negative one, are either
+// refused with 400 (guard, 6ca1ef6) or served; an offset that is below the segment duration but
+// rounds to it (1.9996 s on 2 s segments) is refused only if the guard compares the offset rounded
+// to milliseconds (f0e7b4c). The model is evaluated with these flags, every other case must agree.
 var guardDetected bool
-var guardRounded bool // the guard compares math.Round(ato*1000) (f0e7b4c) instead of ato*1000 (6ca1ef6)
+var guardRounded bool
 var guardHow string
 
-func detectChunkGuard() (bool, string) {
-	dir := app.VerifC16SourceDir()
-	f, err := parser.ParseFile(token.NewFileSet(), filepath.Join(dir, "handler_livesim.go"), nil, 0)
-	if err != nil {
-		return false, "source not readable: " + err.Error()
+func (e *l1env) probeChunkGuard() {
+	a := e.assets["testpic_2s"]
+	if a == nil || a.Rep("V300") == nil {
+		guardHow = "probe asset testpic_2s missing: assuming no guard"
+		return
 	}
-	mentions := func(n ast.Node, name string) bool {
-		found := false
-		ast.Inspect(n, func(m ast.Node) bool {
-			switch x := m.(type) {
-			case *ast.Ident:
-				if x.Name == name {
-					found = true
-				}
-			case *ast.SelectorExpr:
-				if x.Sel.Name == name {
-					found = true
-				}
-			}
-			return !found
-		})
-		return found
-	}
-	found, how := false, "no guard in livesimHandlerFunc"
-	ast.Inspect(f, func(n ast.Node) bool {
-		fd, ok := n.(*ast.FuncDecl)
-		if !ok || fd.Name.Name != "livesimHandlerFunc" || fd.Body == nil {
-			return true
+	ask := func(ato string) int {
+		in := c09in{Kind: "l1", Asset: a.Path, Rep: "V300", Ato: ato, Chunkdur: "0.5", Mode: "number", Seg: 50, NowMS: 110000}
+		in.fillURLs(a, a.Rep("V300"), a.Ref())
+		r, to := serveWatched(e.ls.Srv.LiveRouter, httptest.NewRequest("GET", in.URL, nil), lib.NewRecWriter(), nil, watchdogMarginMS*time.Millisecond)
+		if to {
+			return -1
 		}
-		ast.Inspect(fd.Body, func(m ast.Node) bool {
-			is, ok := m.(*ast.IfStmt)
-			if !ok {
-				return true
-			}
-			hdr := ast.Node(is.Cond)
-			if mentions(hdr, "AvailabilityTimeCompleteFlag") && mentions(hdr, "SegmentDurMS") && mentions(is.Body, "StatusBadRequest") {
-				found, how = true, "if !AvailabilityTimeCompleteFlag && !(ato >= 0 && ato*1000 < SegmentDurMS) -> 400"
-				if mentions(hdr, "Round") {
-					guardRounded = true
-					how = "if !AvailabilityTimeCompleteFlag && !(ato >= 0 && math.Round(ato*1000) < SegmentDurMS) -> 400"
-				}
-			}
-			return true
-		})
-		return false
-	})
-	return found, how
+		return r.Status
+	}
+	beyond, negative, edge := ask("3"), ask("-0.5"), ask("1.9996")
+	guardDetected = beyond == 400 && negative == 400
+	guardRounded = guardDetected && edge == 400
+	guardHow = fmt.Sprintf("behavioural probe on testpic_2s/V300 (2 s segments): ato_3 -> %d, ato_-0.5 -> %d, ato_1.9996 -> %d", beyond, negative, edge)
 }
 
 // atoMSExact parses a decimal number of seconds with at most 3 decimals into milliseconds.
@@ -690,13 +659,12 @@ func oracle(c *lib.Ctx, id string, in c09in, o c09obs) {
 		return
 	}
 	if in.Kind == "l1" && o.Outside {
-		// not (0 <= ato < segment duration): chunked mode has no chunk duration. The tree says (source)
-		// whether such a request is refused; if it is served the media checks below still apply.
+		// not (0 <= ato < segment duration): chunked mode has no chunk duration; the request must be refused (400)
 		if o.Status == 4 {
 			c.Count("l1:refused-400-outside-the-offset-range")
 			return
 		}
-		if guardDetected {
+		{
 			key := "guard-not-applied"
 			if !o.AtoInf && o.AtoMicro == o.SegDurMS*1000 {
 				key = "guard-not-applied:offset-equal-to-segment-duration"
@@ -1288,9 +1256,7 @@ func (e *l1env) genL1(rng *rand.Rand, c *lib.Ctx) l1plan {
 		ref := a.Ref()
 		sd := e.segDur[x.asset]
 		atos := []string{ms(sd), ms(sd - 1), ms(sd + 1), ms(sd-1) + "999", ms(sd) + "001", ms(sd + 1000), ms(sd / 2), "0", "-0.5", "-0.001"}
-		if guardDetected {
-			atos = append(atos, "inf") // without the guard int(+Inf) is implementation-defined: not modelled
-		}
+		atos = append(atos, "inf")
 		for _, ato := range atos {
 			in := c09in{Asset: x.asset, Rep: x.rep, Ato: ato, Chunkdur: "0.5", Mode: "number", Seg: 40 + rng.Int63n(1000)}
 			in.NowMS = in.StartS*1000 + ref.LoopE(in.Seg)*1000/ref.Timescale + 2*sd + 3000
@@ -1311,8 +1277,8 @@ func runC09(c *lib.Ctx) error {
 	if err != nil {
 		return err
 	}
-	guardDetected, guardHow = detectChunkGuard()
-	c.Res.Notes = append(c.Res.Notes, fmt.Sprintf("request guard of chunked mode in the tree under test: %v (%s)", guardDetected, guardHow))
+	env.probeChunkGuard()
+	c.Res.Notes = append(c.Res.Notes, fmt.Sprintf("request guard of chunked mode in the tree under test: present=%v, offset rounded to ms=%v (%s)", guardDetected, guardRounded, guardHow))
 	if c.Replay != "" {
 		return replayC09(c, env)
 	}
